@@ -14,6 +14,7 @@ var TyVar = func() func(name string) *Type {
 	return func(name string) *Type {
 		// compilations on separate engines run concurrently: the counter is shared
 		i := atomic.AddInt64(&n, 1)
+		tyVarHook(i)
 		t := TypeVariable{Type{KTyVar}, name + strconv.FormatInt(i, 10)}
 		return &t.Type
 	}
